@@ -560,3 +560,13 @@ func SameObject(a, b ssa.Value) bool {
 	}
 	return false
 }
+
+// InLoop reports whether block b lies in a natural loop of its function.
+func InLoop(b *ssa.BasicBlock) bool {
+	for _, l := range Loops(b.Parent()) {
+		if l.Blocks[b] {
+			return true
+		}
+	}
+	return false
+}
